@@ -215,6 +215,9 @@ def modelLine (s : State) (line : String) : State × String :=
     match parseReset r with
     | some s0 => (s0, "ok " ++ showState s0)
     | none => (s, "bad-op")
+  | "htlc" :: "ghost" :: _ =>
+    -- an execution on a context that is thrown away: the state is what it was
+    (s, "ghost " ++ showState s)
   | ["htlc", "export"] =>
     let g := HtlcGen.exportGenesis defaultPrev s
     (s, s!"ok validate={if HtlcGen.validateGenesis g then "ok" else "err"} {showGenesis g} {showState s}")
@@ -264,6 +267,13 @@ def runMonitor (prop : String) (ops obs : Array String) : IO Unit := do
         let fs := if prop == "C04" then Spec.C04.resetFails s else Spec.C03.resetFails s
         for c in fs do
           fail c; fails := fails + 1
+      | none => fail "obs-parse"; fails := fails + 1
+    | "htlc" :: "ghost" :: _ =>
+      match parseState o with
+      | some s =>
+        if showState s != showState pre then
+          fail "ghost-visible"; fails := fails + 1
+        pre := s
       | none => fail "obs-parse"; fails := fails + 1
     | ["htlc", "export"] =>
       -- a genesis export reads the state; the next line's pre-state is whatever the implementation shows now
